@@ -4,12 +4,16 @@
 
   OBLIGATIONS: C05_pipeline_coord_is_itk C05_pipeline_is_itk C05_linear_inside_is_plain_interp
     C05_self_identity C05_coords_equals_grid C05_constant_padding C05_itk_maps_are_inverse
+    C05_module_points_are_index_to_axes C05_module_coord_is_itk C05_module_is_itk
+    C05_module_axes_independent C05_module_default_axes_is_itk C05_module_same_grid_branch
+    C05_module_equals_batch_sample
 
   Partial (by design, DESIGN.md §5 C05): agreement outside the source field of view is not part
   of the property; nearest-neighbour ties are excluded; the semantics of `F.grid_sample` itself
   (Model/TorchPrim.lean) is trusted and validated against torch by the conformance stream.
 -/
 import Deepali.Proofs.SamplePipe
+import Deepali.Proofs.SampleModule
 import Deepali.Proofs.Examples
 import Mathlib.Tactic.FinCases
 
@@ -96,11 +100,102 @@ theorem C05_itk_maps_are_inverse {g : Grid d K} (hg : g.Valid) (j : Vec d K) :
   have hw : g.CornersOK .world := fun hc => by cases hc
   rw [← toGrid_world_eq_itk, ← fromGrid_world_eq_itk, toGrid_fromGrid hg .world hw]
 
+/-! ### module entry points `AlignImage` / `TransformImage` (identity transform), every `axes` -/
+
+/-- `Grid.points(axes)` at index `j` is deepali's own GRID → `axes` map of `j` — in particular the
+    ITK physical point for WORLD — for every `axes` and either `align_corners` flag of the grid. -/
+theorem C05_module_points_are_index_to_axes {g : Grid d K} {n : Fin d → Nat} (hg : g.Valid)
+    (hn : g.HasSize n) (h2 : ∀ i, 2 ≤ n i) (j : Vec d K) :
+    (∀ axes, g.pointAt n axes j = fromGrid g axes j) ∧
+    g.pointAt n .world j = Itk.idxToPhys g.origin g.spacing g.direction j ∧
+    g.pointAt n .grid j = j := by
+  refine ⟨fun axes => pointAt_eq_fromGrid hg hn h2 axes j, ?_, ?_⟩
+  · rw [pointAt_eq_fromGrid hg hn h2, fromGrid_world_eq_itk]
+  · rw [pointAt_eq_fromGrid hg hn h2]; rfl
+
+/-- For every choice of `axes`, the continuous source index the modules hand to the interpolator
+    (un-normalised with the TARGET grid's `align_corners` flag, as `SampleImage.align_corners()`
+    dictates) equals ITK's `physToIdx_src (idxToPhys_tgt j)` — for any pair of oriented anisotropic
+    grids and either `align_corners` setting of either grid. -/
+theorem C05_module_coord_is_itk {src tgt : Grid d K} {srcN tgtN : Fin d → Nat} (hs : src.Valid)
+    (ht : tgt.Valid) (hsn : src.HasSize srcN) (htn : tgt.HasSize tgtN) (hs2 : ∀ i, 2 ≤ srcN i)
+    (ht2 : ∀ i, 2 ≤ tgtN i) (axes : Axes) (j : Vec d K) (i : Fin d) :
+    unnormalize tgt.alignCorners ((srcN i : Nat) : K) (moduleSampleCoord src tgt tgtN axes j i)
+      = Itk.physToIdx src.origin src.spacing src.direction
+          (Itk.idxToPhys tgt.origin tgt.spacing tgt.direction j) i := by
+  rw [moduleSampleCoord_unnormalized hs ht hsn htn hs2 ht2, toGrid_world_eq_itk, fromGrid_world_eq_itk]
+
+/-- Hence the value `AlignImage` / `TransformImage` return (linear interpolation, zero padding) is
+    the value of the ITK specification, at every target sample, for all image contents and every
+    choice of `axes`. -/
+theorem C05_module_is_itk {src tgt : Grid d K} {srcN tgtN : Fin d → Nat} (hs : src.Valid)
+    (ht : tgt.Valid) (hsn : src.HasSize srcN) (htn : tgt.HasSize tgtN) (hs2 : ∀ i, 2 ≤ srcN i)
+    (ht2 : ∀ i, 2 ≤ tgtN i) (axes : Axes) (img : (Fin d → Int) → K) (j : Vec d K) :
+    moduleSample src tgt srcN tgtN axes .zeros img j
+      = Itk.resampleLin src.origin src.spacing src.direction tgt.origin tgt.spacing tgt.direction srcN img j := by
+  simp only [moduleSample, gridSampleLin, Itk.resampleLin]
+  congr 1; funext i
+  exact C05_module_coord_is_itk hs ht hsn htn hs2 ht2 axes j i
+
+/-- The `axes` argument is immaterial: any two choices give the same image, under zero and under
+    border padding. -/
+theorem C05_module_axes_independent {src tgt : Grid d K} {srcN tgtN : Fin d → Nat} (hs : src.Valid)
+    (ht : tgt.Valid) (hsn : src.HasSize srcN) (htn : tgt.HasSize tgtN) (hs2 : ∀ i, 2 ≤ srcN i)
+    (ht2 : ∀ i, 2 ≤ tgtN i) (a b : Axes) (pad : Padding) (img : (Fin d → Int) → K) (j : Vec d K) :
+    moduleSample src tgt srcN tgtN a pad img j = moduleSample src tgt srcN tgtN b pad img j := by
+  have hc : ∀ (c : Axes) (i : Fin d), unnormalize tgt.alignCorners ((srcN i : Nat) : K)
+      (moduleSampleCoord src tgt tgtN c j i) = toGrid src .world (fromGrid tgt .world j) i :=
+    fun c i => moduleSampleCoord_unnormalized hs ht hsn htn hs2 ht2 c j i
+  cases pad <;> simp only [moduleSample, gridSampleLin, hc]
+
+/-- `axes=None` (the default: `Axes.from_grid(target)`) is one of these choices. -/
+theorem C05_module_default_axes_is_itk {src tgt : Grid d K} {srcN tgtN : Fin d → Nat} (hs : src.Valid)
+    (ht : tgt.Valid) (hsn : src.HasSize srcN) (htn : tgt.HasSize tgtN) (hs2 : ∀ i, 2 ≤ srcN i)
+    (ht2 : ∀ i, 2 ≤ tgtN i) (axes : Option Axes) (img : (Fin d → Int) → K) (j : Vec d K) :
+    moduleSample src tgt srcN tgtN (moduleAxes tgt axes) .zeros img j
+      = Itk.resampleLin src.origin src.spacing src.direction tgt.origin tgt.spacing tgt.direction srcN img j :=
+  C05_module_is_itk hs ht hsn htn hs2 ht2 _ img j
+
+/-- When the source is (equal to) the target, `Grid.transform` takes its same-grid branch table;
+    the coordinates are those of the two-grid branch, so the statements above cover it. -/
+theorem C05_module_same_grid_branch {tgt : Grid d K} {tgtN : Fin d → Nat} (ht : tgt.Valid)
+    (htn : tgt.HasSize tgtN) (ht2 : ∀ i, 2 ≤ tgtN i) (axes : Axes) (j : Vec d K) :
+    moduleSampleCoordSame tgt tgtN axes j = moduleSampleCoord tgt tgt tgtN axes j :=
+  moduleSampleCoordSame_eq ht htn ht2 axes j
+
+/-- The module path (target's flag) and `ImageBatch.sample` (source's flag) return the same value
+    although they normalise with different conventions. -/
+theorem C05_module_equals_batch_sample {src tgt : Grid d K} {srcN tgtN : Fin d → Nat} (hs : src.Valid)
+    (ht : tgt.Valid) (hsn : src.HasSize srcN) (htn : tgt.HasSize tgtN) (hs2 : ∀ i, 2 ≤ srcN i)
+    (ht2 : ∀ i, 2 ≤ tgtN i) (axes : Axes) (pad : Padding) (img : (Fin d → Int) → K) (j : Vec d K) :
+    moduleSample src tgt srcN tgtN axes pad img j = sampleOnGrid src tgt srcN tgtN pad img j := by
+  have hc : ∀ i : Fin d, unnormalize tgt.alignCorners ((srcN i : Nat) : K)
+      (moduleSampleCoord src tgt tgtN axes j i) = toGrid src .world (fromGrid tgt .world j) i :=
+    fun i => moduleSampleCoord_unnormalized hs ht hsn htn hs2 ht2 axes j i
+  have hc' : ∀ i : Fin d, unnormalize src.alignCorners ((srcN i : Nat) : K) (sampleCoord src tgt tgtN j i)
+      = toGrid src .world (fromGrid tgt .world j) i :=
+    fun i => sampleCoord_unnormalized hs ht hsn htn hs2 ht2 j i
+  cases pad <;> simp only [moduleSample, sampleOnGrid, gridSampleLin, hc, hc']
+
 /-! ### non-vacuity: two concrete oriented anisotropic grids with different conventions -/
 
 example : exampleGrid.Valid ∧ exampleGrid2.Valid ∧ exampleGrid.HasSize ![5, 4] ∧ exampleGrid2.HasSize ![3, 6] ∧
     (∀ i, 2 ≤ (![5, 4] : Fin 2 → Nat) i) ∧ (∀ i, 2 ≤ (![3, 6] : Fin 2 → Nat) i) :=
   ⟨exampleGrid_valid, exampleGrid2_valid, exampleGrid_hasSize, exampleGrid2_hasSize,
     by intro i; fin_cases i <;> simp, by intro i; fin_cases i <;> simp⟩
+
+/-- the module theorems on the concrete rotated anisotropic pair (source 5×4, `align_corners=True`;
+    target 3×6, `align_corners=False`): for every `axes`, target sample (1, 2) is looked up at the
+    source index (9/2, 15/2), which is what the ITK maps give. -/
+example : ∀ axes : Axes, ∀ i,
+    unnormalize exampleGrid2.alignCorners (((![5, 4] : Fin 2 → Nat) i : Nat) : ℚ)
+      (moduleSampleCoord exampleGrid exampleGrid2 ![3, 6] axes ![1, 2] i) = (![9 / 2, 15 / 2] : Fin 2 → ℚ) i := by
+  intro axes i
+  rw [C05_module_coord_is_itk exampleGrid_valid exampleGrid2_valid exampleGrid_hasSize
+    exampleGrid2_hasSize (by intro i; fin_cases i <;> simp) (by intro i; fin_cases i <;> simp) axes _ i]
+  simp only [Itk.physToIdx, Itk.idxToPhys, Grid.origin, Grid.originOffset, exampleGrid_size, exampleGrid2_size,
+    Grid.affine]
+  fin_cases i <;> simp [exampleGrid, exampleGrid2, Vec.sub, Vec.add, Vec.mul, Mat.mulVec, Mat.mul, Mat.diag,
+    Mat.transpose, sumFin_eq, Fin.sum_univ_two] <;> norm_num
 
 end Deepali
